@@ -80,6 +80,11 @@ def tasks(tier):
             'dep:C01:pidspace', 'dep:C01:octroot', 'dep:C01:shreach',
             'dep:C01:eshreach', 'dep:C01:sortnbrs', 'dep:C01:sentinel',
             'dep:C01:pidslices',
+            # "the same particle state whatever the neighbour algorithm":
+            # every class returns the true neighbour set -- C01's bounded
+            # stand-in over all twelve classes (hash tables in C++, sorted
+            # keys, octrees are outside the generator) is re-run here
+            'dep:C01:oracle', 'dep:C01:nnpsinit',
             'dep:C17:apply', 'dep:C03:bounded', 'dep:C04:traces',
             'dep:C04:accel']
     return ['frames:%s' % m for m in mods] + ['reorder', 'wiring',
@@ -97,8 +102,31 @@ def run_task(task, ctx):
         cm.run_task(t, ctx)
         for r in ctx.results[n0:]:
             r['name'] = 'dep.%s.%s' % (mod.lower(), r['name'])
+        # failing cases of the other property's bounded stand-in that are
+        # its OPEN findings are reported by its own check, not re-claimed here
+        import json as _json
+        import os as _os
+        import re as _re
+        here = _os.path.dirname(_os.path.dirname(_os.path.abspath(__file__)))
+        try:
+            kf = _json.load(open(_os.path.join(here, 'known_findings.json')))
+            opens = [f for f in kf['findings'] if f['property'] == mod and
+                     f['status'] == 'open']
+        except Exception:
+            opens = []
+
+        def is_open(name):
+            return any(f.get('obligation') == name or (
+                f.get('obligation_re') and _re.fullmatch(f['obligation_re'],
+                                                         name))
+                for f in opens)
+        keep = []
         for b in ctx.bounded[b0:]:
+            if not b['ok'] and is_open(b['name']):
+                continue
             b['name'] = 'dep.%s.%s' % (mod.lower(), b['name'])
+            keep.append(b)
+        ctx.bounded[b0:] = keep
         return
     if task.startswith('frames:'):
         return task_frames(ctx, repo, task[7:])
@@ -185,9 +213,14 @@ def task_reorder(ctx, repo):
     for i_, o in enumerate(outs):
         tr = [t for t in o.state.trace if t[0] in ('order', 'update')]
         ev = tr
-        # every array re-ordered, then the neighbour structures rebuilt
+        # the ordering is asked of a search structure that has seen the
+        # arrays as they are NOW (the step ends with update_domain() and the
+        # inlet/outlet callbacks, after its last nnps.update(): an index list
+        # for another particle count is not a permutation of this array);
+        # then every array re-ordered, then the structures rebuilt
         # (update_domain() alone re-creates ghosts but bins nothing)
-        good = tr == [('order', 0), ('order', 1), ('order', 2), ('update',)]
+        good = tr == [('update',), ('order', 0), ('order', 1), ('order', 2),
+                      ('update',)]
         pobs.append(Obligation('reorder.path%d' % i_, o.pc,
                                z3.BoolVal(bool(good)), m.path,
                                extra=dict(backends=['z3'])))
@@ -225,8 +258,8 @@ for per in (False, True):
             def update_domain(self): ev.append('update_domain')
         s = mod.Solver.__new__(mod.Solver); s.particles = [1, 2]; s.nnps = N()
         s.reorder_particles()
-        if [e for e in ev if e != 'update_domain'] != ['order0', 'order1', 'update'] and bad is None:
-            bad = dict(is_periodic=per, is_mirror=mir, observed=ev, expected=['order0', 'order1', 'update'])
+        if [e for e in ev if e != 'update_domain'] != ['update', 'order0', 'order1', 'update'] and bad is None:
+            bad = dict(is_periodic=per, is_mirror=mir, observed=ev, expected=['update', 'order0', 'order1', 'update'])
 print(json.dumps(dict(bad=bad)))
 """
         from pyvc.repo import REPO_ROOT
